@@ -34,7 +34,9 @@ def epsilon_closure(N: NFA, q: Union[State, Set[State]]) -> Set[State]:
     todo: Set[State] = result.copy()
     if _verif.ON: _verif.emit('ec.start', start=sorted(result))
     while todo:
+        if _verif.ON: _rest = _verif.force('ec.pop', todo)
         q = todo.pop()
+        if _verif.ON: _verif.restore(todo, _rest)
         Q1: Set[State] = N.delta[q, N.epsilon] - result
         result = result | Q1
         todo = todo | Q1
